@@ -212,6 +212,8 @@ check("C12", "compaction preserves content; deleted keys stay deleted", [
        "3 cycles x 9 table shapes (729 programs), 2 keys", "4 cycles", q={"budget_s": 500}, t={"budget_s": 1500}),
     ob("VerifC12_RepeatedCompactions", "pkg/engine", "several compaction cycles in one engine lifetime (level-0 trigger 2): each round flushes two level-0 tables (both keys / two versions of the first / two versions of the second; puts and deletes) and triggers a compaction, so later cycles meet the outputs of earlier ones and whatever the compaction code keeps from cycle to cycle; optional restart on the tables alone after one round; after every round and after a final retire-logs+reopen every key reads as its latest write says",
        "3 rounds x 6 shapes, restart after round 0..2 (648 programs), 2 keys", "4 rounds", q={"budget_s": 500}, t={"budget_s": 1500}),
+    ob("VerifC12_MarkerOutlivesUnrelatedCompaction", "pkg/engine", "both keys (or only the one that gets deleted) two levels down; one is deleted and its marker compacted into level 1; optional restart on the tables alone; then one or two rounds of tables touching only the other key are flushed and compacted (rewriting the level-1 table that holds the marker): the deleted key stays deleted while its old version exists further down, in the running engine and after retire-logs+reopen",
+       "2 keys, deleted key 0/1, deep table holding both keys or only the deleted one, restart yes/no, 1-2 later rounds (16 programs)"),
     ob("VerifC12_CrashDuringCompaction", "pkg/engine", "2 (thorough 2-3) flushed level-0 tables with successive versions of a key (value / overwrite / delete) and a second key; the process dies at any file-system step of a triggered compaction cycle (both crash models); logs retired; reopened on whatever table files the crash left: every key reads as its latest write says",
        "2 tables, every crash point of the cycle, every iteration order of the maps kevo's compaction code walks (input files by level, obsolete files: 2-3 entries, all permutations)", "2-3 tables", q={"budget_s": 600, "map_orders": True}, t={"budget_s": 1500, "map_orders": True}),
 ], [SIMFS, CLOCK, HASH, BLOOM, JSON, LOG, TIERA], ["more than 3 levels", "size-ratio triggered compactions between deep levels (selectOverlappingCompaction)", "more than 3 input files in the directory-level harness", "the tombstone tracker's time-based retention (the clock does not advance 24 h in any harness)"])
